@@ -121,6 +121,31 @@ CLAIMS["C07"] = dict(
     technique="independent header/size-table reader + TLA+ well-formedness predicate evaluated by TLC on every recorded file (trace validation)",
     design="DESIGN.md §3.2, §4 C07")
 
+CLAIMS["C02"] = dict(
+    category="model_checking",
+    text=("The repeat-save machine of NifWire.tla: one live model is saved three times with the raw options and three times with the default "
+          "options, with the full read-only query battery (file/blocks/nodes/per-shape geometry, textures, bones, weights, partitions, "
+          "segments) before and after each save. TLC judges every recorded execution: saves 2 and 3 equal save 1 after canonical "
+          "string-table renumbering (indices compared through the strings they denote; header tables, sizes, masked content ids and "
+          "reference values equal) and all query digests are unchanged. Inputs: the 26 samples fresh and after seeded graph edits, and "
+          "synthesised instances of the 304 block types in seven versions."),
+    note=("Queries returning block indices move under a sorting save, so for the default options the measurement starts after one normalising "
+          "default save (what that first save may change is C04). Accessors that convert cached data lazily are run once before the first "
+          "battery. Content equality is hash equality from the harness."),
+    technique="TLA+ repeat-save relation evaluated by TLC on recorded executions (trace validation) over sample, edited and synthesised models",
+    design="DESIGN.md §3.2, §4 C02")
+CLAIMS["C03"] = dict(
+    category="model_checking",
+    text=("NifUnknownMC enumerates with TLC, per sample file with a size table, the sets of block types to relabel as unknown (every "
+          "non-empty subset up to 6 types, else singletons, their complements and the full set). The harness relabels them in the file "
+          "bytes without library code, loads, optionally edits strings of known blocks or copies the model (constructor and assignment), "
+          "saves with default and raw options, and TLC judges NifWire!UnknownViol on what the independent reader sees: same block "
+          "count/order/type names, opaque payloads and sizes byte-identical, the input string table a prefix of the output's, output "
+          "WellFormed, unknown presence detected."),
+    note="Payload equality is hash equality (unmasked) from the harness. Only files with block sizes can hold unknown blocks.",
+    technique="TLC-enumerated relabelling subsets executed on the implementation; TLA+ preservation relation evaluated by TLC on the recorded files",
+    design="DESIGN.md §3.2, §4 C03")
+
 NOT_YET = {}
 
 
